@@ -45,7 +45,7 @@ def _e2(prop):
     return f
 
 
-EXTRA = {"C18": _e2("C18"), "C16": _e2("C16"), "C06": _e2("C06"), "C03": _e2("C03"), "C02": _e2("C02"), "C01": _e2("C01"), "C09": _e2("C09"), "C10": _e2("C10"), "C08": _e2("C08"), "C15": _e2("C15")}
+EXTRA = {"C18": _e2("C18"), "C16": _e2("C16"), "C06": _e2("C06"), "C03": _e2("C03"), "C02": _e2("C02"), "C01": _e2("C01"), "C09": _e2("C09"), "C10": _e2("C10"), "C08": _e2("C08"), "C15": _e2("C15"), "C07": _e2("C07")}
 
 kanirun.META["C16"] = {
     "bounds": "E1: every constructor path for each concrete length 0,1,3 (quick) / 8 (thorough) with fully symbolic contents, 3 handles dropped in every order; from_utf8 for ALL byte strings of each length 0..4; Eq/Ord/Hash for pairs of lengths (1,2),(2,2) (quick) / (3,3) (thorough), symbolic hash seed; E2: 2 (quick) / 3 (thorough) threads each [clone; read; drop;] read; drop, symbolic capacity, all interleavings",
